@@ -115,6 +115,71 @@ theorem ctor_inv (es : List Elem) (base : Option FormatRec) (hbase : InvBase bas
     | some e => cases h
     | none => injection h with h; subst h; exact format_inv b hi
 
+/-- **Every predicate and lookup equals its declarative meaning over the listed elements**
+(`QueriesMatch`, `Lemmas/Builder.lean`): with `os`, `cs`, `as`, `ns` the listings
+`get_options`, `get_command_options`, `get_arguments`, `get_command_names` for the same
+`include_base`,
+`has_options ↔ os ≠ []`, `has_option n ↔ ∃ o ∈ os, n ∈ o.names`, `get_option n` = the first
+(by `names_identify_at_most_one`: the only) `o ∈ os` with `n ∈ o.names`, else
+`NoSuchOptionException`; the same for command options; `has_argument n ↔ ∃ a ∈ as, a.name = n`,
+`has_argument i ↔ i < |as|`, `get_argument n / i` = that element, else `NoSuchArgumentException`;
+`has_required / optional / multi_valued_argument ↔ ∃ a ∈ as, a.required / optional / multi`;
+dictionary keys are the long names / argument names; `has_command_names ↔ ns ≠ []`.
+Positions are natural numbers here; Python's negative (from-the-end) positions are modelled
+(`pyIndex`) and compared by the correspondence run but have no declarative reading. -/
+theorem queries_match_elements (f : FormatRec) (h : InvF f) (ib : Bool) : QueriesMatch f ib := by
+  cases ib
+  · exact queriesMatch_false f h
+  · exact queriesMatch_true f h
+
+/-- ... the same for a builder (its queries are those of its raw copy) and for the format built
+from it. -/
+theorem queries_match_elements_builder (b : Builder) (h : Inv b) (ib : Bool) :
+    QueriesMatch b.raw ib ∧ QueriesMatch (format b) ib ∧ ∀ q, queryB b q = queryF b.raw q :=
+  ⟨queries_match_elements _ h ib, queries_match_elements _ (format_inv b h) ib, fun q => (queryF_raw b q).symm⟩
+
+/-- **Every long name, short name and alias identifies at most one option** across the format
+and its bases - the `keys` part of the invariant read over the listed elements. -/
+theorem names_identify_at_most_one (f : FormatRec) (h : InvF f) (n : Str) :
+    (∀ o1 ∈ dictVals (f.getOptions true), ∀ o2 ∈ dictVals (f.getOptions true),
+        n ∈ o1.names → n ∈ o2.names → o1 = o2) ∧
+    (∀ c1 ∈ f.getCommandOptions true, ∀ c2 ∈ f.getCommandOptions true,
+        n ∈ c1.names → n ∈ c2.names → c1 = c2) ∧
+    (∀ o ∈ dictVals (f.getOptions true), ∀ c ∈ f.getCommandOptions true, n ∈ o.names → n ∉ c.names) :=
+  names_unique f h n
+
+/-- **At most one multi-valued argument and it is last, no required argument after an optional
+one, unique names** - the `args` part of the invariant read over `get_arguments()`. -/
+theorem argument_rules (f : FormatRec) (h : InvF f) : ArgsOK (dictVals (f.getArguments true)) := by
+  rw [f.getArguments_eq h]; exact h.args
+
+/-- **Listing order**: options and command options are listed own-first, arguments and command
+names base-first, and nothing of the base is dropped or duplicated (the flattened view C01
+uses). -/
+theorem listing_order (g : FormatRec) (l : Level) (h : InvF (.mk (some g) l)) :
+    (FormatRec.mk (some g) l).getOptions true = l.opts ++ g.getOptions true ∧
+    (FormatRec.mk (some g) l).getCommandOptions true = dictVals l.copts ++ g.getCommandOptions true ∧
+    (FormatRec.mk (some g) l).getArguments true = g.getArguments true ++ l.args ∧
+    (FormatRec.mk (some g) l).getCommandNames true = g.getCommandNames true ++ l.names :=
+  listings_compose g l h
+
+/-- Lookups by name and by natural position raise the documented exceptions only (no
+`KeyError` / `IndexError` escapes). -/
+theorem lookups_raise_documented_only (f : FormatRec) (h : InvF f) (ib : Bool) (t : String) :
+    (∀ n, f.getOption n ib ≠ .error (.other t)) ∧ (∀ n, f.getCommandOption n ib ≠ .error (.other t)) ∧
+    (∀ n, f.getArgument n ib ≠ .error (.other t)) ∧ (∀ i : Nat, f.getArgumentAt (i : Int) ib ≠ .error (.other t)) := by
+  have q := queries_match_elements f h ib
+  have key : ∀ {α : Type} (r : Option α) (e : Err), (∀ t, e ≠ .other t) → lookup r e ≠ .error (.other t) := by
+    intro α r e he
+    cases r with
+    | none => intro hh; injection hh with hh; exact he t hh
+    | some a => intro hh; cases hh
+  refine ⟨?_, ?_, ?_, ?_⟩
+  · intro n; rw [q.getOption]; exact key _ _ (by intro t h; cases h)
+  · intro n; rw [q.getCommandOption]; exact key _ _ (by intro t h; cases h)
+  · intro n; rw [q.getArgument]; exact key _ _ (by intro t h; cases h)
+  · intro i; rw [q.getArgumentAt]; exact key _ _ (by intro t h; cases h)
+
 /-! ### Non-vacuity: a concrete base and builder with colliding names -/
 
 section Examples
@@ -154,6 +219,11 @@ example : (match exBase with
       some (dictKeys (b.getArguments true), (b.getOption "f".toList true).toOption.map (·.tag),
             b.hasOption "b".toList false, b.hasOption "f".toList false))
     = some (["src".toList, "dst".toList, "rest".toList], some 1, true, false) := by decide
+
+/-- Python's from-the-end indexing is part of the model: on an empty format `has_argument(-1)` is
+true and `get_argument(-1)` raises `IndexError` (both classes behave the same). -/
+example : (Builder.empty none).hasArgumentAt (-1) true = true ∧
+    (Builder.empty none).getArgumentAt (-1) true = .error (.other "IndexError") := ⟨by decide, rfl⟩
 
 example : Op.wf (.addCommandOption cAdd) := by
   simp [Op.wf, CmdOpt.wf, cAdd]
